@@ -1319,3 +1319,93 @@ Proof.
     + intros v [<-|[<-|[<-|[]]]]; vm_compute; split; reflexivity.
   - vm_compute. repeat split; reflexivity.
 Qed.
+
+(* ================================================================== a restore while ANOTHER wallet is being removed
+   (Ledger/ImportRemoveProofs.v, Ledger/ImportRemoveExamples.v)
+
+   All statements above require every other keyed wallet to be READY ([mi_others]); C08's theorems require that
+   nobody is importing.  Here wallet r is being removed (status WRemoving, its keystore and part of its rows still
+   there) while wallet w is restored.  [minv_r p g U w r keysS c st]: without r's remaining rows ([strip r st]) the
+   database satisfies [minv] for the key table without r — w's credits = the ledger of w's keys up to its cursor,
+   the ready wallets' credits = their ledger over the whole synced chain c, the block records cover these rows —;
+   r's remaining rows are keyed by r's keystore and name real outputs (nothing more is known of them, as in C08's
+   [StInv]); once phase 1 has run r has no balance row / pending game row.
+   [xwf_r]: ANY interleaving of: the node attaches / detaches a block, an announcement is processed (tip
+   extension, reorganisation with Rollback, stale block: Rollback re-creates nothing for r once phase 1 has run),
+   a rescan batch of w, phase 1 of r's removal, a round of it (any cap; the last round deletes status, passphrase
+   and keystore of r). *)
+Require Import MW.Ledger.RemoveProofs4 MW.Ledger.ImportRemoveProofs MW.Ledger.ImportRemoveExamples.
+
+(* a rescan batch of w on ANY node chain (committed, retried or refused) keeps the invariant *)
+Theorem C07_rescan_batch_during_removal : forall p g U,
+  (forall b1 b2, In b1 U -> In b2 U -> b_id b1 = b_id b2 -> b1 = b2) -> GU U ->
+  forall w r, w <> r -> forall keysS B c n st, ninv g U n -> 0 < B -> minv_r p g U w r keysS c st ->
+  minv_r p g U w r keysS c (fst (import_batch repaired p B n st w)).
+Proof. exact rbatch_inv. Qed.
+Print Assumptions C07_rescan_batch_during_removal.
+
+(* an announcement that is processed (tip extension, reorganisation with Rollback to any depth, an old block of the
+   handler's own chain) keeps it, for the chain the handler follows afterwards *)
+Theorem C07_announcement_during_removal : forall p g U,
+  (forall b1 b2, In b1 U -> In b2 U -> b_id b1 = b_id b2 -> b1 = b2) -> GU U ->
+  forall w r, w <> r -> forall keysS c n st b st', ninv g U n -> minv_r p g U w r keysS c st -> In b U -> b <> g ->
+  xprocess repaired p n st b = XOk st' -> exists c', minv_r p g U w r keysS c' st'.
+Proof. exact rprocess_inv. Qed.
+Print Assumptions C07_announcement_during_removal.
+
+(* C07_import_during_removal.  Start: a database in which every wallet is ready ([minv] with w absent), r one of
+   them, its passphrase passR.  RemoveWallet r is accepted, then ImportWallet w (addresses sh :: shs discovered, new
+   to the keystore); then ANY history [xwf_r].  At EVERY point s of it:
+   - the handler has not died;
+   - (a) when r's removal has finished, w is ready and the handler is in step with the node: the database is the live
+     run of every wallet of its key table over the node's chain — [equals_live_all]: synced chain, credits (up to
+     order), every wallet's credit rows and report — and the key table is the initial one WITHOUT r's entries plus w's;
+   - (b) when r's removal has finished: no record is keyed by r or by one of its script hashes (C08's [mentions]),
+     r is not listed;
+   - (c) frame: every other wallet v holds exactly the credit rows (with spent marks) and the report its keys earn
+     over the chain c the handler follows — the run with neither the import nor the removal;
+   - r cannot be selected from the request on (until it is gone); w cannot be selected until it is ready. *)
+Theorem C07_import_during_removal : forall p g U,
+  (forall b1 b2, In b1 U -> In b2 U -> b_id b1 = b_id b2 -> b1 = b2) -> GU U ->
+  forall w r, w <> r -> forall keys0 B cap, 0 < B ->
+  forall passR pass sh shs c0 n0 all0 st0,
+  ninv g U n0 -> incl all0 (chain_txs U) ->
+  minv p g U w keys0 c0 st0 -> status_of st0 w = None -> (forall s, ownW w keys0 s = None) ->
+  NoDup (map fst keys0) ->
+  status_of st0 r = Some WReady -> lookupN (x_pass st0) r = Some passR -> memN r (x_p1 st0) = false ->
+  NoDup (sh :: shs) -> (forall s, In s (sh :: shs) -> lookupN keys0 s = None) ->
+  forall stA2 h,
+  import_start (fst (remove_request st0 r passR)) w pass (sh :: shs) = Some stA2 ->
+  let s2 := {| xs_node := n0; xs_st := stA2; xs_all := all0; xs_crashed := false |} in
+  xwf_r p g U w r B cap s2 h ->
+  let s := fold_left (xstep repaired p B cap) h s2 in
+  let st := xs_st s in
+  let keysS := filter (fun e : N * N => negb (snd e =? r)%N) keys0 ++ keys_of w (sh :: shs) in
+  xs_crashed s = false /\
+  (in_step g s -> status_of st w = Some WReady -> status_of st r = None ->
+     equals_live_all p st (xs_node s) /\ x_keys st = keysS) /\
+  (status_of st r = None -> mentions st r (sh_of_wallet st0 r) = false /\ listed st r = false) /\
+  (exists c, wf_chain c /\ synced (x_w st) = synced_of c /\
+     forall v, v <> w -> v <> r ->
+       proj v (credits (x_w st)) = proj v (credits (L p (lookupN keys0) c)) /\
+       xreport st v = spec_report p (lookupN keys0) c v) /\
+  (status_of st r <> None -> use_wallet st r = UUnready) /\
+  (status_of st w <> Some WReady -> status_of st w <> None -> use_wallet st w = UUnready).
+Proof. exact import_during_removal_A. Qed.
+Print Assumptions C07_import_during_removal.
+
+(* the premises are satisfiable and the history non-trivial: the shared-transaction history of
+   Ledger/ImportRemoveExamples.v (wallet 1 removed, wallet 2 restored; T5 = 1 pays 2, T6 = 2 pays 1, T7 spends a coin of
+   each) — the theorem applies to every checked history from the state after the two requests, e.g. [q_h1]
+   (removal steps, batches and a reorganisation interleaved; at its end: in step, wallet 2 ready, wallet 1 gone) *)
+Example C07_import_during_removal_instance : forall h,
+  xwf_r_b q_p0 q_g0 q_U 2 1 1 1 q_s2 h = true ->
+  ir_conclusion q_p0 q_g0 2 1 (x_keys (xs_st (xrun repaired q_p0 1 1 [q_g0] q_pre))) 2 []
+                (xs_st (xrun repaired q_p0 1 1 [q_g0] q_pre)) (fold_left (xstep repaired q_p0 1 1) h q_s2).
+Proof. exact shared_tx_instance. Qed.
+Example C07_import_during_removal_history :
+  xrun repaired q_p0 1 1 [q_g0] (q_pre ++ ordA) = q_s2 /\
+  xwf_r_b q_p0 q_g0 q_U 2 1 1 1 q_s2 q_h1 = true /\
+  let s := fold_left (xstep repaired q_p0 1 1) q_h1 q_s2 in
+  snd (tip (x_w (xs_st s))) = b_id (last (xs_node s) q_g0) /\ status_of (xs_st s) 2 = Some WReady /\ status_of (xs_st s) 1 = None.
+Proof. split; [exact shared_tx_start|exact shared_tx_instance_history]. Qed.
